@@ -90,4 +90,29 @@ def run(tier, seed):
         "explanation": "complete obligations: estimate forwards, concatenate base/step/accessors, and the structural contract of every FromIterator/Extend body "
                        "(one add per item, in order, components in order: all lengths); bounded: the Kani agreement harnesses for sequences up to length 3.",
     }
-    return obs, meta, None
+    return obs, meta, confirm
+
+
+def confirm(ob):
+    """estimate() vs the headline accessor on short streams of the real crate (bit for bit)."""
+    import re
+    import replay
+    m = re.match(r"C20\.(\w+)\.estimate\.same_term", ob.name)
+    if not m:
+        return None
+    ty = m.group(1)
+    head = {"Mean": "mean", "Variance": "population_variance", "Skewness": "skewness", "Kurtosis": "kurtosis", "Quantile": "quantile"}.get(ty)
+    if head is None:
+        return None
+    xs = [7.0, -1.5, 0.25, 3.0, 0.1, 12.0, 2.5]
+    progs = []
+    for p in ([0.0, 0.3, 1.0] if ty == "Quantile" else [None]):
+        for k in range(len(xs) + 1):
+            progs.append({"type": ty, "ctor": ["new"] + ([p] if p is not None else []), "ops": [["add", x] for x in xs[:k]], "observe": ["estimate", head]})
+    for pg, r in zip(progs, replay.run_programs(progs)):
+        a, b = r["obs"].get("estimate"), r["obs"].get(head)
+        if a is None or b is None:
+            continue
+        if replay.bits(a) != replay.bits(b) and not (a != a and b != b):
+            return {"program": pg, "expected": {"estimate": "bits of %s() = %r" % (head, b)}, "actual": {"estimate": repr(a)}, "confirmed_on_real_code": True}
+    return None
